@@ -28,7 +28,30 @@ def gen_doc_case(rng, profile, n_hist, n_events, doc_kwargs=None, type_name=None
             gen_errors.append("history %d: %s" % (k, e))
         except RuntimeError as e:
             gen_errors.append("history %d: %s" % (k, e))
-    return {"kind": "qtdoc", "profile": profile, "doc": doc, "histories": hists, "gen_errors": gen_errors}
+    return add_predecessor({"kind": "qtdoc", "profile": profile, "doc": doc, "histories": hists, "gen_errors": gen_errors}, rng)
+
+
+def add_predecessor(case, rng, p=0.6):
+    """Most translations in a build tree happen over the outputs of an earlier version of the same document.  The earlier
+    version here has the same objects and constants (so the same .ui) but fewer handlers and fewer dynamic bindings: the
+    support header on trial is the one left on disk after translating the earlier version and then the document."""
+    r = rng.fork("prev")
+    if not r.chance(p):
+        return case
+    doc = copy.deepcopy(case["doc"])
+    changed = False
+    for o in [doc["root"]] + doc["objects"]:
+        if o["handlers"] and r.chance(0.8):
+            keep = [h for h in o["handlers"] if r.chance(0.3)]
+            changed |= len(keep) != len(o["handlers"])
+            o["handlers"] = keep
+        keep = [b for b in o["bindings"] if r.chance(0.5)]
+        # members of one grouped binding stay or go together only by chance: both shapes are legal documents
+        changed |= len(keep) != len(o["bindings"])
+        o["bindings"] = keep
+    if changed:
+        case["prev_qml"] = gen.render_doc(doc)
+    return case
 
 
 def name_mapping(doc, info):
@@ -124,8 +147,13 @@ def run_doc_case(case, env, focus, stats, syntax_compilers=()):
     fps = []
     workdir = env.fresh_dir("qt")
     try:
-        tr = build.translate(env, doc["qml"], doc["type_name"], workdir)
+        tr = build.translate(env, doc["qml"], doc["type_name"], workdir, prev_qml=case.get("prev_qml"))
         stats["runs"] += 1
+        if tr.get("prev") is not None:
+            stats["runs"] += 1
+            _bump(probes, "documents_translated_over_the_outputs_of_an_earlier_version")
+            if tr["prev"]["exit"] == 0 and tr["prev"]["ui"] == tr["ui"] and tr["prev"]["header"] != tr["header"]:
+                _bump(probes, "earlier_version_had_the_same_ui_and_a_different_header")
         if tr["exit"] != 0 or tr["ui"] is None or tr["header"] is None:
             _bump(probes, "generated_documents_rejected_by_qmluic")
             errs = [l for l in tr["stderr"].splitlines() if l.startswith("error")]
@@ -431,6 +459,10 @@ def shrink_doc_case(case, violation):
     """history-level shrinking (no recompilation needed per candidate beyond the cached TU)"""
     hi = violation.get("history")
     gi = violation.get("group")
+    if case.get("prev_qml"):
+        c = copy.deepcopy(case)
+        del c["prev_qml"]
+        yield c
     if hi is not None and len(case["histories"]) > 1:
         c = copy.deepcopy(case)
         c["histories"] = [case["histories"][hi]]
